@@ -22,12 +22,13 @@ RULE = ('A physically consistent trajectory (own closed-form integration of a sm
         'with ValueError, or all N rows are finite unit quaternions (1e-9) and, from W_f samples after the last window, the '
         'geodesic distance (IMU variants: tilt distance) to the clean run of the same filter stays below rho_f (constants calibrated on the unchanged '
         'tree, DESIGN.md section 3/C13). Non-trivial: a window that starts after sample 20, ends at least W_f before the end and '
-        'zeroes a sensor the architecture uses; distinct = case hash. The faulty history is also fed sample by sample through the update method (up to the end of the last window): each step raises ValueError or returns a finite unit quaternion.')
+        'zeroes a sensor the architecture uses; distinct = case hash. The faulty history is also fed sample by sample through the update method (up to the end of the last window): each step raises ValueError or returns a finite unit quaternion. Responsiveness probe: that streamed object and a second one streamed through the clean history get the same 0.15 rad kick after the last window and the same valid samples from there on; W_f samples later they are within rho_f of each other. ROLEQ presets include a null weight for either sensor (then the recovery clause is applied to outages with a running gyroscope only).')
 ASSUMPTIONS = ['recovery horizon W_f and tolerance rho_f per filter (and per class of zeroed sensors: gyroscope too / accelerometer / magnetometer only) are calibrated constants (>= 3x margin over the worst observed in 24000 schedules; Mahony-MARG with a magnetometer-only outage additionally by what the filter knows of the gyroscope bias)',
                'a filter that corrects at a bounded rate (Madgwick: beta rad/s) is given the time that rate needs for the worst frozen-gyro error']
-REQUIRED_LABELS = ['dropout:streamed', 'dropout:long_window', 'dropout:gyro_bias=known', 'dropout:gyro_bias=unknown', 'dropout:sensor=acc', 'dropout:sensor=mag', 'dropout:sensor=gyr', 'dropout:windows>=2', 'dropout:params=custom']
+REQUIRED_LABELS = ['dropout:probe', 'dropout:streamed', 'dropout:long_window', 'dropout:gyro_bias=known', 'dropout:gyro_bias=unknown', 'dropout:sensor=acc', 'dropout:sensor=mag', 'dropout:sensor=gyr', 'dropout:windows>=2', 'dropout:params=custom']
 
 DT = 0.01
+KICK = 0.15          # rad, responsiveness probe
 # (W_f samples after the last window, rho_f rad) -- calibrated, see DESIGN.md
 RECOVERY = {
     # key: (W_f, tolerance by class of the zeroed sensors: 'gyr' = a gyroscope sample was zeroed too, 'acc' = accelerometer (and maybe
@@ -69,7 +70,7 @@ PRESETS = {
     'UKF': [{}],
     'AQUA': [{}, {'adaptive': True}, {'alpha': 0.05, 'beta': 0.05}, {'threshold': 0.95}],
     'Fourati': [{}, {'gain': 0.3}],
-    'ROLEQ': [{}, {'weights': [1.0, 0.5]}, {'weights': [0.4, 1.6]}],
+    'ROLEQ': [{}, {'weights': [1.0, 0.5]}, {'weights': [0.4, 1.6]}, {'weights': [1.0, 0.0]}, {'weights': [0.0, 1.0]}],   # a null weight is accepted by the validation
     'FKF': [{}],
     'Complementary': [{}, {'gain': 0.95}, {'gain': 0.8}],
 }
@@ -128,7 +129,7 @@ def _case(tier):
         if draw(st.booleans()):
             for w in windows[1:]:
                 w['sensors'] = list(windows[0]['sensors'])       # the same fault recurring
-        return {'spec': i, 'preset': draw(st.integers(0, 3)), 'seed': draw(st.integers(0, 2**31-1)), 'n': n, 'windows': windows,
+        return {'spec': i, 'preset': draw(st.integers(0, 59)), 'seed': draw(st.integers(0, 2**31-1)), 'n': n, 'windows': windows,
                 'gyr_bias': bias, 'bias_known': draw(st.integers(0, 2)) > 0,
                 'frame': draw(st.sampled_from(['NED', 'ENU'])), 'dip': draw(gen.fl(-70.0, 70.0)), 'np_seed': draw(st.integers(0, 2**31-1))}
     return build()
@@ -201,6 +202,11 @@ def evaluate(case, ctx, calibrate=None):
         # two runs of the fixed-length gradient step chatter independently with amplitude ~ beta*dt each
         beta = max(v for k_, v in preset.items() if k_.startswith('gain'))
         rho_f = max(rho_f, 12.0*beta*DT)
+    if spec.name == 'ROLEQ' and 0.0 in [float(v) for v in preset.get('weights', [1.0])] and sensor_cls == 'gyr':
+        # one observation vector left: the rotation about it that a frozen gyroscope leaves behind is unobservable for good
+        # (as the heading is for the IMU variants); the run is judged for finiteness and unit norm only
+        rho_f = math.inf
+        ctx.label('roleq_single_vector_frozen_gyro_unobservable')
     tag = key + (f'[{frame}]' if len(spec.frames) > 1 else '')
     which = '+'.join(sorted({sn for w in case['windows'] for sn in w['sensors'] if uses[sn]})) or 'unused'
     try:
@@ -303,8 +309,42 @@ def evaluate(case, ctx, calibrate=None):
         if worst > rho_f:
             ctx.fail(f'{tag}|does_not_return_to_clean_run|{which}',
                      f'{worst:.3e} rad from the clean run {W_f}+ samples after the last dropout (tolerance {rho_f}) windows {case["windows"]}')
-    elif calibrate is not None and n - last_end > 10:
-        pass
+    # Responsiveness probe (metamorphic): "keeps its state" also means the filter still corrects afterwards.  The object that was
+    # streamed through the faulty history and a second object streamed through the clean history get the same kick (the
+    # quaternion handed to the next update is rotated by KICK rad about a drawn axis) right after the last window and are then fed
+    # the same valid samples: both have to pull the same error back, so W_f samples later they are as close as the batch runs are
+    # required to be.  A filter whose correction was switched off, or whose gain state was damaged, by the dropout stays behind.
+    k0 = min(n, last_end + 3)
+    if stream_status == 'completed' and sstep is not None and stream_k == k0 and k0 + W_f < n and nontriv:
+        try:
+            cobj, cstep = spec.stream(frame, dip, dict(F.revive_params(preset or {}), Dt=DT))
+            qc = np.array(clean[0], dtype=float)
+            for k in range(1, k0):
+                qc = np.array(np.asarray(cstep(qc, gyr[k], acc[k], mag[k])), dtype=float)
+            rs = np.random.RandomState(int(case['seed']) ^ 0x5bd1e995)
+            ax = rs.randn(3)
+            ax /= np.linalg.norm(ax)
+            dq = np.concatenate([[math.cos(KICK/2)], math.sin(KICK/2)*ax])
+            qf = oracle.qmul(np.array(stream_q, dtype=float), dq)
+            qc = oracle.qmul(qc, dq)
+            worst_p = 0.0
+            for k in range(k0, n):
+                qf = np.array(np.asarray(sstep(qf, gyr[k], acc[k], mag[k])), dtype=float)
+                qc = np.array(np.asarray(cstep(qc, gyr[k], acc[k], mag[k])), dtype=float)
+                if k >= k0 + W_f:
+                    worst_p = max(worst_p, F.attitude_error(spec, qf, qc, frame))
+        except Exception as e:
+            ctx.label('probe_skipped_' + type(e).__name__)
+            return
+        ctx.label('probe')
+        if not (np.all(np.isfinite(qf)) and np.all(np.isfinite(qc))):
+            ctx.label('probe_nonfinite')
+            return
+        if calibrate is not None:
+            calibrate.append((key + '/probe', sensor_cls + '|bias_' + bias_cls, worst_p, rho_f))
+        if worst_p > rho_f:
+            ctx.fail(f'{tag}|kicked_after_dropout_does_not_follow_the_kicked_clean_filter|{which}',
+                     f'{worst_p:.3e} rad between the two kicked filters {W_f}+ samples after the kick (tolerance {rho_f}) windows {case["windows"]}')
 
 
 def selftest():
